@@ -69,13 +69,17 @@ def alias_check(ctx, r, case):
         objs = {}
         for reg in a.region:
             objs.update(mutable_objects(reg, path="region[%s]" % type(reg).__name__))
+        # the Assembly object's own bookkeeping (peak trackers, power tallies, ...) is per-assembly state as well
+        for k, v in vars(a).items():
+            if k != 'region':
+                objs.update(mutable_objects(v, depth=5, path="assembly." + k))
         per_asm.append(objs)
     # which objects does a plane mutate?  fingerprint before / after one step
     allobjs = {}
     import gc
     byid = {}
     for a in r.assemblies:
-        for reg in a.region:
+        for reg in list(a.region) + [v for k, v in vars(a).items() if k != 'region']:
             stack = [reg]
             seen = set()
             while stack:
